@@ -1096,8 +1096,8 @@ def _lazy_part(rep, tier, wd, J):
     # thread A pre-empted anywhere in its WHOLE operation (the multiplication after the construction: the loop over the table)
     for mode in ("table", "jtable", "ptable", "scale"):
         plan.append(("tiny", mode, "pt", False, True, True, None, "op"))
-    plan += [("nist256p", "table", "pt", False, True, False, 3000 if thorough else 40, "op"),
-             ("nist256p", "jtable", "pt", False, True, False, 3000 if thorough else 40, "op"),
+    plan += [("nist256p", "table", "pt", False, True, False, 1500 if thorough else 40, "op"),
+             ("nist256p", "jtable", "pt", False, True, False, 1500 if thorough else 40, "op"),
              ("ed25519", "table", "pt", False, True, False, 1500 if thorough else 40, "op")]
     plan = [p_ if len(p_) == 8 else p_ + ("fn",) for p_ in plan]
     curves = []
